@@ -28,6 +28,7 @@ BIGMAX = 2 ** 127 - 1
 # kind -> (local setup statements, failing statement) ; `a` is an int parameter / variable holding 1
 KINDS = {
     "assert": ([], ("assert", ("bin", "<", V("a"), I(0)))),
+    "assert-after-text": ([], ("assert", ("bin", "<", V("a"), I(0)), "d\u00e9j\u00e0 vu \u65e5\u672c\u8a9e \U0001f600")),
     "get-nil": ([("decl", "o", ("opt", "int"), ("nil",), ())], ("decl", "v", None, ("get", V("o")), ())),
     "list-index": ([("decl", "l", ("list", "int"), ("list", [I(1)]), ())], ("decl", "v", None, ("index", V("l"), ("bin", "+", V("a"), I(5))), ())),
     "str-index": ([("decl", "s", None, S("ab"), ())], ("decl", "v", None, ("index", V("s"), ("bin", "+", V("a"), I(5))), ())),
@@ -189,7 +190,7 @@ def build(case):
     if split < d:
         lsrc, lmarks = ms.program(lib)
         files_out["p/q/r/lib.ms"] = lsrc
-    if kind == "assert":
+    if kind.startswith("assert"):
         if d > 0 and d - 1 >= split:
             l, c = lmarks[id(failing)]
             assert_pos = "lib.ms:%d:%d" % (l, c)
